@@ -33,6 +33,8 @@ class Cfg:
         self.flat = False          # C13: flat structured programs only
         self.coro = False
         self.p_halt = 0.08
+        self.dead_code = 0.15       # probability that a block keeps statements after one that ends the control flow
+        self.reader_shaped = False  # only op shapes a binary SSB reader delivers (int flags for BranchEdit/Variation…)
         for k, v in kw.items():
             setattr(self, k, v)
 
@@ -109,7 +111,7 @@ class ProgGen:
             return {"h": "neg", "not": self.r.random() < 0.4, "kw": self.r.choice(["debug", "edit", "variation"])}
         if c < 0.9:
             return {"h": "scn", "var": self.il("vc"), "cmp": self.r.choice(["==", ">", "<", ">=", "<="]), "a": self.r.randint(0, 50), "b": self.r.randint(0, 9)}
-        nm, ar = self.r.choice(BRANCH_OPS)
+        nm, ar = self.r.choice(BRANCH_OPS[:2] if self.cfg.reader_shaped else BRANCH_OPS)
         return {"h": "operation", "name": nm, "args": [self.il("ic") for _ in range(ar)]}
 
     def switch_header(self) -> dict:
@@ -240,7 +242,26 @@ class ProgGen:
         n = self.r.choice([0, 1, 1, 2, 2, 3, self.cfg.max_stmts]) if allow_empty else self.r.choice([1, 1, 2, 3])
         if self.cfg.flat:
             return [self.plain() for _ in range(n)]
-        return [self.stmt(depth + 1, in_loop, in_case) for _ in range(n)]
+        return self.trim_dead([self.stmt(depth + 1, in_loop, in_case) for _ in range(n)])
+
+    @staticmethod
+    def ends_flow(s: dict) -> bool:
+        t = s["t"]
+        return t in ("ctrl", "jump") or (t == "op" and s["name"] in HALT_OPS)
+
+    def trim_dead(self, body: list[dict]) -> list[dict]:
+        """unless dead code is wanted, cut a statement list after its first control-flow-ending statement"""
+        if self.r.random() < self.cfg.dead_code:
+            return body
+        for i, s in enumerate(body):
+            if self.ends_flow(s):
+                # labels after it are reachable by jumps: keep everything from the first label on
+                rest = body[i + 1:]
+                for j, t in enumerate(rest):
+                    if t["t"] == "label":
+                        return body[:i + 1] + self.trim_dead(rest[j:])
+                return body[:i + 1]
+        return body
 
     def if_(self, depth: int, in_loop: bool, in_case: bool) -> dict:
         self.hit("if")
@@ -260,15 +281,26 @@ class ProgGen:
         self.hit("switch")
         n = self.r.choice([0, 1, 2, 3, 4])
         cases = []
+        hdr = self.switch_header()
+        menu_only = False
+        if self.cfg.reader_shaped:
+            # the game pairs message_SwitchMenu with menu cases and every other switch header with value cases
+            while hdr["s"] == "operation" and hdr["name"] == "SomeOp":
+                hdr = self.switch_header()
+            menu_only = hdr["s"] == "operation" and hdr["name"].startswith("message_SwitchMenu")
         for _ in range(n):
             body = self.block(depth, in_loop, True)
             if self.cfg.flat:
                 body = [self.plain() for _ in range(self.r.choice([0, 1, 2]))]
                 if body or self.r.random() < 0.3:
                     body.append({"t": "ctrl", "k": "break"})
-            elif self.r.random() < 0.5:
+            elif self.r.random() < 0.5 and not (body and self.ends_flow(body[-1])):
                 body.append({"t": "ctrl", "k": "break"})
-            cases.append({"default": False, "header": self.case_header(), "body": body})
+            ch = self.case_header()
+            if self.cfg.reader_shaped:
+                while (ch["c"] in ("menu", "menu2")) != menu_only:
+                    ch = self.case_header()
+            cases.append({"default": False, "header": ch, "body": body})
         if self.r.random() < 0.5:
             body = self.block(depth, in_loop, True)
             if self.cfg.flat:
@@ -278,7 +310,7 @@ class ProgGen:
         # a switch must not end in an empty case
         if cases and not cases[-1]["body"]:
             cases[-1]["body"] = [self.plain()] + ([{"t": "ctrl", "k": "break"}] if self.cfg.flat else [])
-        return {"t": "switch", "header": self.switch_header(), "cases": cases}
+        return {"t": "switch", "header": hdr, "cases": cases}
 
     def loop(self, depth: int, in_case: bool) -> dict:
         c = self.r.random()
@@ -295,10 +327,12 @@ class ProgGen:
     def routine_body(self) -> list[dict]:
         cfg = self.cfg
         n = self.r.choice([0, 1, 2, 3, 4, cfg.max_stmts, cfg.max_stmts + 3])
-        body = [self.stmt(0, False, False) for _ in range(n)]
+        body = self.trim_dead([self.stmt(0, False, False) for _ in range(n)])
         if not body:
             body = [self.plain()]
         c = self.r.random()
+        if body and self.ends_flow(body[-1]) and not cfg.flat:
+            return body
         if cfg.flat or c < 0.6:
             body.append({"t": "ctrl", "k": self.r.choice(["return", "end", "hold"])})
         elif c < 0.7 and cfg.labels:
